@@ -109,6 +109,18 @@ func (a *act) constVal(c *ssa.Const) Val {
 			return Val{T: c.Value.ExactString() + ".0", S: "Real", GT: t}
 		}
 	case constant.Float:
+		if f, ok := constant.Float64Val(c.Value); ok || f == f {
+			s := fmt.Sprintf("%.17g", f)
+			if !strings.ContainsAny(s, ".e") {
+				s += ".0"
+			}
+			if !strings.Contains(s, "e") {
+				if strings.HasPrefix(s, "-") {
+					s = "(- " + s[1:] + ")"
+				}
+				return Val{T: s, S: "Real", GT: t}
+			}
+		}
 		unsupportedf("float constant")
 	}
 	unsupportedf("constant %s of type %s", c.Value, t)
@@ -637,7 +649,7 @@ func (a *act) binop(in *ssa.BinOp, guard string, st *State) Val {
 		if x.S == SStr {
 			return Val{T: fmt.Sprintf("(%s %s 0)", op, App("strcmp", x.T, y.T)), S: bt, GT: in.Type()}
 		}
-		if x.S != SInt {
+		if x.S != SInt && x.S != "Real" {
 			unsupportedf("ordered comparison on %s", x.S)
 		}
 		return Val{T: fmt.Sprintf("(%s %s %s)", op, x.T, y.T), S: bt, GT: in.Type()}
@@ -654,6 +666,14 @@ func (a *act) binop(in *ssa.BinOp, guard string, st *State) Val {
 		case token.OR:
 			return Val{T: Or(x.T, y.T), S: SBool, GT: in.Type()}
 		}
+	}
+	if x.S == "Real" {
+		fop := map[token.Token]string{token.ADD: "f64.add", token.SUB: "f64.sub", token.MUL: "f64.mul", token.QUO: "f64.div"}[in.Op]
+		if fop == "" {
+			unsupportedf("float binop %s", in.Op)
+		}
+		fx.eng.assume("float64 arithmetic is abstracted: conversions are monotone and exact up to 2^53, subtraction has the exact sign, everything else is uninterpreted")
+		return Val{T: App(fop, x.T, y.T), S: "Real", GT: in.Type()}
 	}
 	ii, ok := intKind(in.Type())
 	if !ok {
@@ -697,7 +717,9 @@ func (a *act) convert(in *ssa.Convert, guard string, st *State) Val {
 			return Val{T: App(ii.wrapFn(), x.T), S: SInt, GT: to}
 		}
 		if x.S == "Real" {
-			unsupportedf("float to int conversion")
+			t := App("f64.toint", x.T)
+			fx.ctx.Assert(ii.rangeFact(t))
+			return Val{T: t, S: SInt, GT: to}
 		}
 	}
 	ts := a.sortOf(to)
@@ -712,8 +734,11 @@ func (a *act) convert(in *ssa.Convert, guard string, st *State) Val {
 	case ts == x.S:
 		x.GT = to
 		return x
-	case ts == "Real":
-		unsupportedf("conversion to float")
+	case ts == "Real" && x.S == SInt:
+		return Val{T: App("f64.ofint", x.T), S: "Real", GT: to}
+	case ts == "Real" && x.S == "Real":
+		x.GT = to
+		return x
 	case ts == SStr && x.S == SInt:
 		f := fx.ctx.DeclareFun("str.ofrune", []Sort{SInt}, SStr)
 		return Val{T: App(f, x.T), S: SStr, GT: to}
